@@ -10,6 +10,7 @@ import (
 	"sync/atomic"
 
 	"go.pennock.tech/tabular/auto"
+	"go.pennock.tech/tabular/texttable"
 	"go.pennock.tech/tabular/texttable/decoration"
 
 	"verif/harness/internal/ev"
@@ -28,6 +29,8 @@ type Worker struct {
 	// Faults[i] > 0: before render i the same wrapper renders into a writer whose write number Faults[i]-1 fails
 	// (the rest succeed): whatever that leaves behind must not reach this or any other goroutine's output.
 	Faults []int `json:"faults,omitempty"`
+	// Deco, if set, is a custom decoration this goroutine builds (Populate) and renders its table with, last
+	Deco *gen.DecoSpec `json:"deco,omitempty"`
 }
 
 type failOnce struct {
@@ -96,6 +99,24 @@ func run(wk Worker, yield bool) []result {
 			res[i] = result{err: "error"}
 		}
 	}
+	if wk.Deco != nil {
+		d, _ := wk.Deco.Make()
+		tt := texttable.Wrap(t)
+		tt.SetDecoration(d)
+		var r result
+		var err error
+		if yield {
+			var w yieldWriter
+			err = tt.RenderTo(&w)
+			r.out = w.buf.String()
+		} else {
+			r.out, err = tt.Render()
+		}
+		if err != nil {
+			r = result{err: "error"}
+		}
+		res = append(res, r)
+	}
 	return res
 }
 
@@ -148,8 +169,12 @@ func CheckCase(c Case) *ev.Violation {
 		for i := range c.Workers {
 			for j := range want[i] {
 				if got[i][j] != want[i][j] {
+					style := "custom decoration"
+					if j < len(c.Workers[i].Renders) {
+						style = c.Workers[i].Renders[j]
+					}
 					return ev.V("repetition %d: goroutine %d render %d (%s) differs from the same table rendered alone\n--- concurrent\n%s%s\n--- alone\n%s%s",
-						rep+1, i, j, c.Workers[i].Renders[j], got[i][j].err, got[i][j].out, want[i][j].err, want[i][j].out)
+						rep+1, i, j, style, got[i][j].err, got[i][j].out, want[i][j].err, want[i][j].out)
 				}
 			}
 		}
